@@ -14,7 +14,8 @@ PROPERTY = "C09"
 LEVEL = "model_checking"
 CODE = ["yowsup/layers/*/protocolentities/*.py: <Entity>.fromProtocolTreeNode / toProtocolTreeNode / __init__ (every class listed in coverage.cases)",
         "yowsup/structs/protocolentity.py", "yowsup/structs/protocoltreenode.py"]
-BOUNDS = {"quick": "[+ second serialisation of every incoming shape; url / caption edited on the 5 downloadable kinds] " 
+BOUNDS = {"quick": "[+ big lists 255/256/257 for 2 entity classes; unlisted media kind] " 
+                   "[+ second serialisation of every incoming shape; url / caption edited on the 5 downloadable kinds] " 
                    "[+ second conversion of every incoming shape (independent values, distinct list members)] " 
                    "[+ error iq with backoff >= 1] " 
                    "one template per documented stanza shape; every non-discriminator attribute an unconstrained non-empty string or non-negative integer; "
